@@ -465,3 +465,190 @@ func ruleEcPoint(c *Ctx, r *Rep) {
 		r.Undecided("anchor:ec-point-stores", c.FnPos(p8), "no store into X or Y of an ecdsa key below the PKCS#8 reader")
 	}
 }
+
+// ---- SUBJECT-TEXT --------------------------------------------------------------------------------------------------------
+// The text of a subject attribute goes into the certificate as it stands in the configuration: what follows the '='
+// of a piece is the value. Cutting something off it on the way (surrounding quotes "as RFC 2253 writes them", a
+// prefix, white space inside) changes what the certificate says (seed C03p).
+
+func init() {
+	register(&Rule{Name: "SUBJECT-TEXT", Floor: 1, Run: ruleSubjectText,
+		Doc: "where the subject parser stores a text as the value of an attribute, that text is a piece of the configured subject as split, or what a '#'-value decodes to: on no way to the store is it cut (a sub-string with a bound), trimmed of anything but surrounding white space, replaced in, or changed in case"})
+}
+
+func ruleSubjectText(c *Ctx, r *Rep) {
+	fn := c.Func("generator/config", "ParseRDNSequence")
+	if fn == nil {
+		r.Undecided("anchor:ParseRDNSequence", "", "not found")
+		return
+	}
+	var cands []*ssa.Function
+	seenF := map[*ssa.Function]bool{}
+	var add func(f *ssa.Function, d int)
+	add = func(f *ssa.Function, d int) {
+		if f == nil || seenF[f] || !c.InModule(f) || f.Blocks == nil || d > 2 {
+			return
+		}
+		seenF[f] = true
+		cands = append(cands, f)
+		for _, ci := range callsIn(f) {
+			add(ci.Common().StaticCallee(), d+1)
+		}
+	}
+	add(fn, 0)
+	rewriters := map[string]bool{"strings.Trim": true, "strings.TrimLeft": true, "strings.TrimRight": true, "strings.TrimPrefix": true, "strings.TrimSuffix": true,
+		"strings.TrimFunc": true, "strings.Replace": true, "strings.ReplaceAll": true, "strings.ToLower": true, "strings.ToUpper": true, "strings.Title": true,
+		"strconv.Unquote": true, "strings.Map": true, "strings.Fields": true, "strings.Join": true, "strings.ToValidUTF8": true}
+	n := 0
+	for _, f := range cands {
+		k := 0
+		for _, b := range f.Blocks {
+			for _, ins := range b.Instrs {
+				st, ok := ins.(*ssa.Store)
+				if !ok {
+					continue
+				}
+				fa, ok := st.Addr.(*ssa.FieldAddr)
+				if !ok || fieldOfAddr(fa).Name() != "Value" || !strings.Contains(types.TypeString(fa.X.Type(), nil), "AttributeTypeAndValue") {
+					continue
+				}
+				// the texts that can be the value: directly, or as what a helper of the module answers
+				var texts []ssa.Value
+				seenT := map[ssa.Value]bool{}
+				var collect func(v ssa.Value, d int)
+				collect = func(v ssa.Value, d int) {
+					if d > 6 || seenT[v] {
+						return
+					}
+					seenT[v] = true
+					switch x := v.(type) {
+					case *ssa.MakeInterface:
+						if isString(x.X.Type()) {
+							texts = append(texts, x.X)
+						}
+					case *ssa.Phi:
+						for _, e := range x.Edges {
+							collect(e, d+1)
+						}
+					case *ssa.Extract:
+						if call, isCall := x.Tuple.(*ssa.Call); isCall {
+							if g := call.Call.StaticCallee(); g != nil && c.InModule(g) && g.Blocks != nil {
+								for _, ret := range returnsOf(g) {
+									if rr := retResults(ret); x.Index < len(rr) {
+										collect(rr[x.Index], d+1)
+									}
+								}
+							}
+						}
+					case *ssa.Call:
+						if g := x.Call.StaticCallee(); g != nil && c.InModule(g) && g.Blocks != nil && g.Signature.Results().Len() == 1 {
+							for _, ret := range returnsOf(g) {
+								collect(retResults(ret)[0], d+1)
+							}
+						}
+					case *ssa.UnOp:
+						if al, isAl := x.X.(*ssa.Alloc); isAl && x.Op == token.MUL && al.Referrers() != nil {
+							for _, ref := range *al.Referrers() {
+								if s2, isSt := ref.(*ssa.Store); isSt && s2.Addr == ssa.Value(al) {
+									collect(s2.Val, d+1)
+								}
+							}
+						}
+					}
+				}
+				collect(st.Val, 0)
+				if len(texts) == 0 {
+					continue
+				}
+				n++
+				k++
+				cut := ""
+				seen := map[ssa.Value]bool{}
+				var walk func(v ssa.Value, d int)
+				walk = func(v ssa.Value, d int) {
+					if d > 10 || seen[v] || cut != "" {
+						return
+					}
+					seen[v] = true
+					switch x := v.(type) {
+					case *ssa.Slice:
+						if isString(x.X.Type()) && (x.Low != nil || x.High != nil) {
+							cut = c.Pos(x.Pos()) + ": a part of the text (" + x.String() + ")"
+							return
+						}
+						walk(x.X, d+1)
+					case *ssa.Phi:
+						for _, e := range x.Edges {
+							walk(e, d+1)
+						}
+					case *ssa.Convert:
+						walk(x.X, d+1)
+					case *ssa.ChangeType:
+						walk(x.X, d+1)
+					case *ssa.UnOp:
+						if al, isAl := x.X.(*ssa.Alloc); isAl && x.Op == token.MUL && al.Referrers() != nil {
+							for _, ref := range *al.Referrers() {
+								if s2, isSt := ref.(*ssa.Store); isSt && s2.Addr == ssa.Value(al) {
+									walk(s2.Val, d+1)
+								}
+							}
+						}
+					case *ssa.Call:
+						name := calleeFullName(x)
+						if rewriters[name] {
+							cut = c.Pos(x.Pos()) + ": " + name
+							return
+						}
+						if name == "strings.TrimSpace" && len(x.Call.Args) == 1 {
+							walk(x.Call.Args[0], d+1)
+							return
+						}
+						if g := x.Call.StaticCallee(); g != nil && c.InModule(g) && g.Blocks != nil && g.Signature.Results().Len() == 1 && isString(g.Signature.Results().At(0).Type()) {
+							for _, ret := range returnsOf(g) {
+								walk(retResults(ret)[0], d+1)
+							}
+							for _, a := range x.Call.Args {
+								walk(a, d+1)
+							}
+						}
+					case *ssa.Extract:
+						if call, isCall := x.Tuple.(*ssa.Call); isCall {
+							if g := call.Call.StaticCallee(); g != nil && c.InModule(g) && g.Blocks != nil && x.Index < g.Signature.Results().Len() && isString(g.Signature.Results().At(x.Index).Type()) {
+								for _, ret := range returnsOf(g) {
+									if rr := retResults(ret); x.Index < len(rr) {
+										walk(rr[x.Index], d+1)
+									}
+								}
+								for _, a := range call.Call.Args {
+									walk(a, d+1)
+								}
+							}
+						}
+					case *ssa.Parameter:
+						// the helper's parameter: what its callers hand in
+						pf := x.Parent()
+						for i, prm := range pf.Params {
+							if prm != x {
+								continue
+							}
+							if sites, _ := callSitesOf(c, pf); len(sites) > 0 {
+								for _, site := range sites {
+									if i < len(site.Common().Args) && seenF[site.Parent()] && pf != fn {
+										walk(site.Common().Args[i], d+1)
+									}
+								}
+							}
+						}
+					}
+				}
+				for _, t := range texts {
+					walk(t, 0)
+				}
+				r.Check(cut == "", sprintf("value-text-as-written|%s#%d", c.FuncKey(f), k), c.Pos(st.Pos()), "the text stored as the attribute's value is the piece of the subject as written (or what a '#' value decodes to)", cut)
+			}
+		}
+	}
+	if n == 0 {
+		r.Undecided("anchor:attribute-value-store", c.FnPos(fn), "no store of a text into AttributeTypeAndValue.Value in the subject parser or its helpers")
+	}
+}
